@@ -20,3 +20,4 @@ CFG = dict(
      assumptions=["testing/synctest virtual time is correct", "k8s.io/utils/clock/testing FakeClock fires timers on Step"],
      timeout_quick=300, timeout_thorough=2400)
 CFG["rule"] += ' Added after independently written breaking changes: The scheduler is started through Start() or the blocking Run(); entries are added through Schedule or, as spec text, through AddFunc/AddJob (seconds-enabled parser, Cron location).'
+CFG["rule"] += ' Callback points with two callers: Stop (or Entries) is already waiting for the scheduler when Remove is called from a third goroutine; a Remove that returns inside the wake-up is judged like any returned Remove.'
